@@ -156,3 +156,48 @@ def model_stream(lines, kinds, outs):
             else:
                 other[side].append((tk, rest))
     return tx, other, errs
+
+
+def build_server(sess, name="m"):
+    """op lines for the SERVER transport of a multi-client session (harness/multi_session.py), datagram transports only.
+    Returns (lines, kinds, real_tx_of_server)."""
+    spec = sess.spec
+    if spec.transport != "udp":
+        return None
+    sess_epoch[0] = sess.epoch
+    saddr = ps.SERVER
+    cfg = ps.Cfg(transport="udp", version=spec.server_version, fragment_size=spec.fragment_size, resend_timeout=spec.resend_timeout,
+                 resend_limit=spec.resend_limit, ping_timeout=spec.ping_timeout)
+    ES, S = name + "envs", name + "s"
+    lines = [env_line(ES, cfg, sess.settings_s), "srv %s %s %s %d 0" % (S, ES, saddr[0], saddr[1])]
+    for vp in spec.vports:
+        lines.append("bind %s %d 10 %s" % (S, vp, spec.key.hex() if getattr(spec, "key", None) else "none"))
+    kinds = [("setup", None)] * len(lines)
+    real = {"c": [], "s": []}
+    rnd = (0x1234, 0xABCDEF01, 0x5A)
+
+    def add(line, kind):
+        lines.append(line); kinds.append(kind)
+
+    for e in sess.netlog:
+        k = e[0]
+        if k == "tx":
+            _, n, t, src, dst, data, delays = e
+            if src == saddr:
+                real["s"].append((ticks(t), "%s:%d" % dst, hx(data)))
+        elif k == "rx":
+            _, n, t, src, dst, data, alive = e
+            if alive and dst == saddr:
+                add("advance %s %d" % (S, ticks(t) - 1), ("advance", "s"))
+                add("dgram %s %d %s %d %s %d %d %d" % (S, ticks(t), src[0], src[1], hx(data), rnd[0], rnd[1], rnd[2]), ("op", "s", ticks(t)))
+        elif k == "app" and e[2] == "s":
+            _, t, side, op, key, data = e
+            tk = ticks(t)
+            conn = "%s:%d:%d:%d" % (key[0][0], key[0][1], key[1], key[2])
+            add("advance %s %d" % (S, tk), ("advance", "s"))
+            if op == "send":
+                add("send %s %d %s 0 %s" % (S, tk, conn, hx(data)), ("op", "s", tk))
+            elif op == "done":
+                add("done %s %d %s" % (S, tk, conn), ("op", "s", tk))
+    add("advance %s %d" % (S, ticks(sess.end_time)), ("advance", "s"))
+    return lines, kinds, real
